@@ -22,6 +22,7 @@ LEVEL_TEXT = (
     "positions: an integer or a syntax error, resp. a syntax error or the literal content -- never another kind of value."
     ' Two further parts: a process-history part (a fresh Parser returns the same tree and version for a text whatever files of the other syntax were parsed in between) and, in renderings, bare EEMS 2.0 commands, the opening parenthesis on a later line, quoted strings spanning physical lines, bare-CR line ends and files ending in a comment without a line break.'
 )
+LEVEL_TEXT += ' Added later: letters of other alphabets directly behind identifiers and inside names (a corruption); a reuse part: one Parser object across several files with rejected ones among them, compared with fresh parsers.'
 LEVEL_NOTE = (
     "Excluded by construction (docs and pinned tests disagree or are silent): lone backslashes inside "
     "quotes, exponent-only numerals such as 1e5, True/False as identifiers, colons inside list elements. Unquoted strings "
